@@ -127,7 +127,7 @@ def run(prop, tier):
     with Scratch(prop) as wd:
         for cfg in (["Threads_atomic2.cfg", "Threads_nocache2.cfg"] if quick
                     else ["Threads_atomic2.cfg", "Threads_nocache2.cfg", "Threads_atomic3.cfg"]):
-            mc = tlc.model_check("MCThreads", cfg, wd, timeout=280 if quick else 2400)
+            mc = tlc.model_check("MCThreads", cfg, wd, timeout=600 if quick else 7200)
             rep.add_tlc(mc, "exhaustive: Threads.tla %s (single flight, correct value, no internal error, accounting, deadlock freedom)" % cfg)
         common.tick("model check done")
 
